@@ -34,6 +34,22 @@ func rebuildScenarios(seed int64, bi int, o Omni) []*Scenario {
 	// attributes whose value is still missing: the parser's placeholder expression of one reaches the name
 	// of the next (deterministic texts, every offset queried)
 	scs = append(scs, missingValuesScenario(bi))
+	if bi%3 == 0 {
+		// fixed values, literal types and type declarations, incl. object types whose attribute names differ in
+		// letter case only (own random stream); asked on the lines that list such names
+		lf := literalValueFocusScenario(rand.New(rand.NewSource(subSeed(seed, 777000+bi))))
+		for ls := 0; ls < len(lf.Src); {
+			le := ls
+			for le < len(lf.Src) && lf.Src[le] != '\n' {
+				le++
+			}
+			if line := string(lf.Src[ls:le]); strings.Contains(line, "tdc") || strings.Contains(line, "lt_case") {
+				lf.Offsets = append(lf.Offsets, ls+1, ls+(le-ls)/2, le)
+			}
+			ls = le + 1
+		}
+		scs = append(scs, lf)
+	}
 	return scs
 }
 
